@@ -1283,6 +1283,10 @@ func ruleEndArm(w *World, r *Report, pfx string) {
 	r.Check(bad == "" && n > 0 && sawNotify && sawSkip, rule, "heap loop end arm", w.instrPos(arms[endCmd].Instrs[0]), "notify once iff configured; close the request channel", orStr(bad, "branch missing"))
 	// the end request carries pState.shutdownNotifier
 	cont := w.containerLoop()
+	if cont == nil {
+		r.Unresolved("anchor", "container loop", "no unique go target receiving from Progress.operateState")
+		return
+	}
 	okArg := false
 	for f := range w.unit(cont) {
 		for _, b := range f.Blocks {
@@ -1505,6 +1509,10 @@ func ruleErrorPropagation(w *World, r *Report, pfx string) {
 	r.Check(okRet, rule, "flush result", w.pos(render.Pos()), "returned by render", "render drops the error returned by flush")
 	// container loop assigns render's result to the err it later reports: the err phi takes the call's value
 	cont := w.containerLoop()
+	if cont == nil {
+		r.Unresolved("anchor", "container loop", "no unique go target receiving from Progress.operateState")
+		return
+	}
 	okErr := false
 	for _, b := range cont.Blocks {
 		for _, in := range b.Instrs {
